@@ -50,6 +50,16 @@ SPECIAL_TITLES = [
 ]
 
 
+def natural_lang(t):
+    """the language a special title most likely belongs to (by its letters)"""
+    if any("\u0400" <= ch <= "\u04ff" for ch in t):
+        return "ru"
+    for chars, lg in (("ßäöüÄÖÜẞ", "de"), ("ñ¡¿", "es"), ("ãõ", "pt"), ("éèêëàâîïôûùçœæÉÈÀÇŒ", "fr")):
+        if any(ch in chars for ch in t):
+            return lg
+    return "en"
+
+
 def lang_titles(lang):
     if lang in ("en", "none"):
         return None  # corpus
@@ -232,11 +242,12 @@ def small_store_case(prop, kind, lang, rnd, titles, target_title, extra=None):
     return c, sid, 100 + pos
 
 
-def gen_prefix_cases(lang, rnd, titles, toks, ncases, prop="C03"):
-    """C03 (and the exact-prefix clause of C05 when the title has one word): every prefix of every word"""
+def gen_prefix_cases(lang, rnd, titles, toks, ncases, prop="C03", targets=None):
+    """C03 (and the exact-prefix clause of C05 when the title has one word): every prefix of every word; `targets`: the
+    titles to take in turn instead of drawing them"""
     cases = []
-    for _ in range(ncases):
-        t = rnd.choice(titles)
+    for k_ in range(ncases if targets is None else len(targets)):
+        t = rnd.choice(titles) if targets is None else targets[k_]
         tok = toks.get((lang, t))
         if not tok or not tok["words"]:
             continue
@@ -372,12 +383,12 @@ def compound_echo_titles(rnd, titles, n):
     return out
 
 
-def gen_whole_pair_cases(lang, rnd, titles, toks, ncases, extra=()):
+def gen_whole_pair_cases(lang, rnd, titles, toks, ncases, extra=(), targets=None):
     """C13"""
     cases = []
     titles = list(titles) + list(extra)
-    for k_ in range(ncases):
-        t = rnd.choice(titles) if not extra or k_ % 8 else rnd.choice(list(extra))
+    for k_ in range(ncases if targets is None else len(targets)):
+        t = (rnd.choice(titles) if not extra or k_ % 8 else rnd.choice(list(extra))) if targets is None else targets[k_]
         tok = toks.get((lang, t))
         if not tok or not tok["words"]:
             continue
@@ -405,11 +416,11 @@ def gen_whole_pair_cases(lang, rnd, titles, toks, ncases, extra=()):
     return cases
 
 
-def gen_split_join_cases(lang, rnd, titles, toks, ncases):
+def gen_split_join_cases(lang, rnd, titles, toks, ncases, targets=None):
     """C14"""
     cases = []
-    for _ in range(ncases):
-        t = rnd.choice(titles)
+    for k_ in range(ncases if targets is None else len(targets)):
+        t = rnd.choice(titles) if targets is None else targets[k_]
         tok = toks.get((lang, t))
         if not tok or not tok["words"]:
             continue
